@@ -20,6 +20,7 @@ const (
 	CannotUseTheTypeAndSchemaNotationParametersTogether = "cannot use the Type and SchemaNotation parameters together"
 	IncorrectContextOfDirective                         = "incorrect context of directive"
 	ThereIsNoExplicitContextForClosure                  = "there is no explicit context for closure"
+	ThereIsNoDirectiveForTheLexeme                      = "there is no directive that this parameter, annotation or parenthesis could belong to" //nolint:lll
 	DirectiveNotAllowed                                 = "directive not allowed"
 	JsonRpcMethodNotFound                               = "JSON-RPC method not found"
 	JsonRpcResourceNotFound                             = "resource not found"
